@@ -244,6 +244,11 @@ func main() {
 	w("src/common/ed25519/vrf.go: const N", "n", "Nat", fmt.Sprint(n))
 	w("src/common/ed25519/vrf.go: suite, one, two (hex literals)", "suiteHex", "List String", leanList([]string{suite, one, two}))
 	w("src/consensus/logical/vrf_with_stake.go: init() max256 hex literal", "max256Hex", "String", leanStr(max256))
+	mgbt, okm := constInt(paramGo, "MAX_GROUP_BLOCK_TIME", map[string]int64{})
+	if !okm || mgbt < 0 {
+		die("const MAX_GROUP_BLOCK_TIME not found in param.go")
+	}
+	w("src/consensus/model/param.go: const MAX_GROUP_BLOCK_TIME", "maxGroupBlockTime", "Nat", fmt.Sprint(mgbt))
 	w("src/consensus/model/param.go: InitParam MaxQN", "maxQN", "Nat", fmt.Sprint(params["MaxQN"]))
 	w("src/consensus/model/param.go: InitParam PotentialProposal", "potentialProposal", "Nat", fmt.Sprint(params["PotentialProposal"]))
 	w("src/consensus/model/param.go: InitParam PotentialProposalMax", "potentialProposalMax", "Nat", fmt.Sprint(params["PotentialProposalMax"]))
@@ -285,6 +290,10 @@ func main() {
 	order(stakeGo, "calQn", "calQnCalls")
 	order(stakeGo, "calcStakeRatio", "calcStakeRatioCalls")
 	order(stakeGo, "verifyBlockVRF", "verifyBlockVRFCalls")
+	order(stakeGo, "genVrfMsg", "genVrfMsgCalls")
+	order(parse(fset, filepath.Join(repo, "src/consensus/logical/logical_util.go")), "CalDeltaByTime", "calDeltaCalls")
+	order(parse(fset, filepath.Join(repo, "src/consensus/base/hash.go")), "Data2CommonHash", "data2CommonHashCalls")
+	order(parse(fset, filepath.Join(repo, "src/consensus/logical/vrf_worker.go")), "genProve", "genProveCalls")
 
 	// every non-test call site of VRFProof2Hash / decodeProof: padded first?
 	type site struct {
